@@ -3,6 +3,7 @@ package main
 import (
 	"fmt"
 	"math/big"
+	"os"
 	"reflect"
 	"strconv"
 	"strings"
@@ -247,11 +248,13 @@ func c11Gen(c *Ctx) (cs c11Case, cell string) {
 		cell = fmt.Sprintf("choice/n%d", n)
 	}
 	// delivery channel
-	switch c.K % 5 {
+	switch c.K % 6 {
 	case 3:
 		cs.Via = "ini"
 	case 4:
 		cs.Via = "default"
+	case 5:
+		cs.Via = "env"
 	}
 	if cs.T.IsFunc() && cs.Via != "cli" {
 		cs.Via = "cli"
@@ -272,6 +275,16 @@ func c11Run(c *Ctx) {
 	if cs.Via == "default" {
 		o.Defaults = []string{cs.Text}
 	}
+	o.Prog = len(cs.Choice) > 0 && c.K%2 == 0 // choices declared programmatically in half of the cases
+	envKey := ""
+	if cs.Via == "env" {
+		if c.W.Tier == "race" || strings.ContainsRune(cs.Text, 0) {
+			cs.Via = "cli" // (the environment cannot carry NUL bytes)
+		} else {
+			envKey = fmt.Sprintf("VH_C11_%d", c.K)
+			o.Env = envKey
+		}
+	}
 	root.G.Opts = append(root.G.Opts, o)
 	d.Opts = append(d.Opts, o)
 	b := d.Build()
@@ -285,11 +298,23 @@ func c11Run(c *Ctx) {
 	var err error
 	var pan *PanicInfo
 	iniQuoted := false
+	handlerCalls := 0
 	switch cs.Via {
-	case "cli", "default":
+	case "cli", "default", "env":
 		var args []string
 		if cs.Via == "cli" {
 			args = []string{"--val=" + cs.Text}
+		}
+		if cs.Via == "env" {
+			os.Setenv(envKey, cs.Text)
+			defer os.Unsetenv(envKey)
+		}
+		if c.K%7 == 3 {
+			// an installed unknown-option handler must not change how known options reject bad values
+			b.P.UnknownOptionHandler = func(option string, arg flags.SplitArgument, args []string) ([]string, error) {
+				handlerCalls++
+				return args, nil
+			}
 		}
 		pan = safely(func() { _, err = b.P.ParseArgs(args) })
 	case "ini":
@@ -310,6 +335,10 @@ func c11Run(c *Ctx) {
 	}
 	_ = iniQuoted
 	c.Count("conversions", 1)
+	if handlerCalls > 0 {
+		c.Violate("handler-called-for-known-option", "the unknown-option handler was called %d times although --val is a known option", handlerCalls)
+		return
+	}
 	if pan != nil {
 		c.Violate("panic:"+panicSite(pan.Stack), "conversion of %q for %s panicked: %s", cs.Text, t, pan.Value)
 		return
